@@ -894,7 +894,12 @@ fn case_l(out: &mut Out, rng: &mut Rng, idx: u64, verbose: bool) {
     // A: direct
     let direct = match catch_unwind(AssertUnwindSafe(|| exec_frame(&mut xa, &parts))) {
         Ok(r) => r,
-        Err(_) => { out.count("lua:direct-execution-panicked(skipped)"); return; }
+        Err(m) => {
+            let m = panic_msg(m);
+            out.count("lua:direct-execution-panicked(skipped)");
+            out.count(&format!("executor-panic:{}:{}", String::from_utf8_lossy(&parts[0]).to_uppercase(), &m[..m.len().min(70)]));
+            return;
+        }
     };
     // B: through the script; C: what the script saw
     let fname = if use_call { "call" } else { "pcall" };
